@@ -424,7 +424,7 @@ Definition ex_gap_frame (mt fl : Z) : RelayItems.frame :=
 Definition ex_gap_run : list RelayItems.label :=
   [RelayItems.LArrive 0 RelayGap.gap_req RelayGap.gap_env] ++ repeat (RelayItems.LStep (RelayItems.TR 0) true) 10 ++
   [RelayItems.LArrive 1 (ex_gap_frame 4 1) RelayGap.gap_env] ++ repeat (RelayItems.LStep (RelayItems.TR 1) true) 8 ++
-  [RelayItems.LArrive 1 (ex_gap_frame 20 1) RelayGap.gap_env] ++ repeat (RelayItems.LStep (RelayItems.TR 1) false) 14 ++
+  [RelayItems.LArrive 1 (ex_gap_frame 20 1) RelayGap.gap_env] ++ repeat (RelayItems.LStep (RelayItems.TR 1) false) 16 ++
   [RelayItems.LArrive 1 (ex_gap_frame 20 0) RelayGap.gap_env] ++ repeat (RelayItems.LStep (RelayItems.TR 1) true) 2.
 
 Example C08_example_gap_run :
